@@ -54,8 +54,8 @@ fn buf_case(ops: &[bufsim::BOp]) -> J {
 
 pub fn run_c11(seed: u64, run: u64, config: &str, stats: &mut Stats) -> (Vec<Violation>, u64) {
     let rs = mix(&[seed, ENGINE_ID, fnv64(config.as_bytes()), run]);
-    if config == "buf" {
-        let ops = bufsim::gen_buf_history(&mut Rng::new(rs));
+    if config == "buf" || config == "buf-tiny" {
+        let ops = bufsim::gen_buf_history(&mut Rng::new(rs), config == "buf-tiny");
         if crate::runner::tracing() {
             crate::runner::announce_case(&buf_case(&ops));
         }
